@@ -184,22 +184,19 @@ def peekIntoStream(substrate, size=-1):
     """
     if hasattr(substrate, "peek"):
         received = substrate.peek(size)
-        if received is None:
-            yield
 
-        while len(received) < size:
-            yield
+        # `peek()` hands out what is buffered, possibly less than requested
+        if received is not None and len(received) >= size:
+            yield received
+            return
 
-        yield received
+    current_position = substrate.tell()
+    try:
+        for chunk in readFromStream(substrate, size):
+            yield chunk
 
-    else:
-        current_position = substrate.tell()
-        try:
-            for chunk in readFromStream(substrate, size):
-                yield chunk
-
-        finally:
-            substrate.seek(current_position)
+    finally:
+        substrate.seek(current_position)
 
 
 def readFromStream(substrate, size=-1, context=None):
